@@ -3,6 +3,7 @@ package rockredis
 import (
 	"encoding/binary"
 	"errors"
+	"math"
 	"runtime"
 	"sync"
 	"time"
@@ -120,6 +121,23 @@ type expiration interface {
 	decodeFromVersionKey(dt byte, vk []byte) ([]byte, int64, error)
 }
 
+// expireWhen is the absolute second at which a key given `duration` seconds at the raft timestamp ts
+// expires. The sum must not wrap: a second beyond int64 is refused, and a second that is not after
+// the epoch (a duration reaching back before 1970) is second 1: the key is expired at once, as for
+// every other duration that ends in the past (second 0 would mean "no expiry", and a negative one
+// converted to the 32 bit header field lands in the future).
+func expireWhen(ts int64, duration int64) (int64, error) {
+	sec := ts / int64(time.Second)
+	if duration > 0 && sec > math.MaxInt64-duration {
+		return 0, errExpOverflow
+	}
+	when := sec + duration
+	if when <= 0 {
+		when = 1
+	}
+	return when, nil
+}
+
 func (db *RockDB) expire(ts int64, dataType byte, key []byte, rawValue []byte, duration int64) (int64, error) {
 	var err error
 	if rawValue == nil {
@@ -128,7 +146,11 @@ func (db *RockDB) expire(ts int64, dataType byte, key []byte, rawValue []byte, d
 			return 0, err
 		}
 	}
-	return db.expiration.ExpireAt(dataType, key, rawValue, ts/int64(time.Second)+duration)
+	when, err := expireWhen(ts, duration)
+	if err != nil {
+		return 0, err
+	}
+	return db.expiration.ExpireAt(dataType, key, rawValue, when)
 }
 
 func (db *RockDB) KVTtl(key []byte) (t int64, err error) {
